@@ -299,6 +299,18 @@ def h_merge_instr(na: int, nb: int, nc: int, pa: int, pb: int, pc: int) -> bool:
     return reach(ok)
 
 
+def h_replay_normalise(v: int) -> bool:
+    from harness import _E2_lemmas as L
+
+    return L.replay_normalise(v)
+
+
+def h_replay_normalise_monotone(a: int, b: int) -> bool:
+    from harness import _E2_lemmas as L
+
+    return L.replay_normalise_monotone(a, b)
+
+
 META = {
     "level": "model_checking",
     "claim": "Bounded model checking by symbolic execution of the real ExecutionTrace.merge/_merge_min, analyze_results, "
@@ -337,9 +349,11 @@ def obligations(tier: str):
     T = 200 if q else 900
     S = [0, 1, 2, 3]
     obs = []
-    # IEEE-exact lemma: fitness_metrics.normalise is monotone on every non-NaN v >= 0 in Float64 (shared with C10):
-    # PLACEHOLDER — to be added here by the main session with the SMT engine (engines/py2smt.py), e.g.
-    # Smt("normalise_ieee_monotone", ...).  Until then the IEEE side is covered by the exact edge-value obligations only.
+    # IEEE-exact lemmas for fitness_metrics.normalise (engine E2, encoded from the working tree's source on every run):
+    # normalise(v) in [0,1], normalise(v) == 0 <=> v == 0, monotone, for every non-NaN v >= 0 in Float64
+    from harness import _E2_lemmas as L
+
+    obs += L.normalise_obligations(tier, h_replay_normalise, h_replay_normalise_monotone)
     obs.append(Chx("mono1", h_mono1, timeout=T, fix={"klo": 0, "khi": 1}, split={"sa": S}))
     hi = 3 if q else 4  # exact IEEE distances: quick 5e-324, 1e308; thorough also 1e-17
     obs.append(Chx("mono1_ieee", h_mono1, timeout=T, fix={"klo": 2, "khi": hi}, split={"sa": S} if q else {"sa": S, "sb": S}))
